@@ -11,9 +11,9 @@ from .smt import S, I, SeqS
 from .vx import (V, NONE, RAISE, HList, HDict, St, OutOfReach, fresh, fresh_name,
                  vint, vbool, vstr, vopq, GHOST_SEQ_FIELDS, GHOST_LIST_FIELDS, CTX_NAMES)
 
-SPEC_BUILTINS = {"derived", "call_result", "call_arg", "same_object", "memo_coherent", "sql_count", "sql_kind", "sql_text", "sql_params", "expr_value", "parses_as_int", "prefix", "appended", "keys_of", "implies", "is_str", "is_none", "seq_len", "logged"}
+SPEC_BUILTINS = {"tainted_calls", "derived", "call_result", "call_arg", "same_object", "memo_coherent", "sql_count", "sql_kind", "sql_text", "sql_params", "expr_value", "parses_as_int", "prefix", "appended", "keys_of", "implies", "is_str", "is_none", "seq_len", "logged"}
 BUILTIN_NAMES = {
-    "derived", "call_result", "call_arg", "same_object", "memo_coherent", "sql_count", "sql_kind", "sql_text", "sql_params", "expr_value", "parses_as_int", "prefix", "appended", "keys_of", "implies", "is_str", "is_none", "seq_len", "logged",
+    "tainted_calls", "derived", "call_result", "call_arg", "same_object", "memo_coherent", "sql_count", "sql_kind", "sql_text", "sql_params", "expr_value", "parses_as_int", "prefix", "appended", "keys_of", "implies", "is_str", "is_none", "seq_len", "logged",
     "len", "int", "str", "max", "min", "isinstance", "callable", "tuple", "list", "map",
     "range", "reversed", "sorted", "any", "all", "ord", "chr", "set", "frozenset", "dict",
     "float", "abs", "round", "repr", "bool", "enumerate", "zip", "iter", "next", "print",
@@ -198,6 +198,8 @@ def compare(x, st, op, a: V, b: V, node):
 
 
 def equal(x, st, a: V, b: V):
+    if a.k == "unbound" or b.k == "unbound":
+        return z3.BoolVal(False)
     if a.k == "gref" and st is not None:
         a = st.ghost[a.t]
     if b.k == "gref" and st is not None:
@@ -1279,6 +1281,7 @@ def call_def(x, st, f: V, pos, kw, node, chain):
     name = getattr(fn, "name", "<lambda>")
     if c is not None and not c.inline and not (x.c.target == c.target and False):
         return apply_contract(x, st, c, fn, pos, kw, node, chain)
+    x.log_call(st, name, pos)
     if x.mode == "frame":
         if tag == "lambda" or (tag == "def" and _small(fn) and x.depth < 2):
             return inline(x, st, f, pos, kw, node)
@@ -2012,6 +2015,25 @@ def spec_builtin(x, st, name, pos, kw, node):
         if j >= len(ents[i][2]):
             return [(st, RAISE("ClauseError", "no such argument"))]
         return [(st, ents[i][2][j])]
+    if name == "tainted_calls":
+        # tainted_calls(tag, name1, name2, ...): logged calls of those names with an argument carrying the tag
+        tag = x.const_of(pos[0])[0]
+        names = {x.const_of(p)[0] for p in pos[1:]}
+
+        def has(v):
+            if v is None:
+                return False
+            if v.tags and tag in v.tags:
+                return True
+            if v.k == "tuple":
+                return any(has(e) for e in v.t)
+            if v.k == "ref":
+                its = getattr(st.heap.get(v.t), "items", None)
+                if its:
+                    return any(has(e if not isinstance(e, tuple) else e[1]) for e in its)
+            return False
+        n = sum(1 for e in st.log if e and e[0] == "call" and e[1] in names and any(has(a) for a in e[2]))
+        return [(st, vint(n))]
     if name == "derived":
         a, b = pos[0], pos[1]
         m = x.const_of(pos[2])[0]
